@@ -264,3 +264,6 @@ def run(ck):
     ck.run_rule("C06.R6e", "escape letters in any case", 129, c06.rule_escapes)
     ck.run_rule("C15.rad50", "RADIX-50 folds case", 12, c15.rule_rad50)
     ck.run_rule("C15.lit", "^R literal folds case", 3, c15.rule_literal)
+    from ..rules import treeimm
+    ck.run_rule("G4.enc", "operand encoders, directive handlers and literal tokens do not write to the tokens they read (the equivalences above hold for every compilation of a token, not only the first)", 5,
+                treeimm.rule_G4, ("insns", "types", "metacommands", "metacommand_impl", "builtins"))
